@@ -212,14 +212,32 @@ theorem revocation_count_fails_closed (i : Input) (hf : i.fuzz = false) (he : i.
 
 /-- ... and exactly one (OK) result per certificate accepts it: the count test does not refuse everything -/
 theorem revocation_exact_count_accepts (i : Input) (hf : i.fuzz = false) (he : i.entry = .vVerify ∨ i.entry = .vVerifyBlob)
-    (ho : i.oci = .enforce) (hb : i.blob = .enforce) (hs : i.sig = .valid) (hn : i.revSurplus = 0) :
+    (ho : i.oci = .enforce) (hb : i.blob = .enforce) (hs : i.sig = .valid) (hn : i.revSurplus = 0) (hnil : i.revNil = false) :
     run i = okWith true := by
   rcases he with he | he <;>
-    simp [run, runWith, hf, he, vVerify, vVerifyBlob, blobStmt, ho, hb, hs, verifyWithStmt, revStep, revFails, hn, okWith, failWith]
+    simp [run, runWith, hf, he, vVerify, vVerifyBlob, blobStmt, ho, hb, hs, verifyWithStmt, revStep, revFails, hn, hnil, okWith, failWith]
+
+/-- **fail closed on nil entries**: a validator (or deprecated client) whose vector holds nil pointers - whatever its
+count - fails an otherwise acceptable verification with an outcome whose error is set; it is a result, not a panic -/
+theorem revocation_nil_entries_fail_closed (i : Input) (hf : i.fuzz = false) (he : i.entry = .vVerify ∨ i.entry = .vVerifyBlob)
+    (ho : i.oci = .enforce) (hb : i.blob = .enforce) (hs : i.sig = .valid) (hr : i.rev = true) (hnil : i.revNil = true) :
+    run i = failWith true := by
+  rcases he with he | he <;>
+    simp [run, runWith, hf, he, vVerify, vVerifyBlob, blobStmt, ho, hb, hs, verifyWithStmt, revStep, revFails, hr, hnil, okWith, failWith]
+
+/-- nil server results inside the results do not matter -/
+theorem rev_nil_server_irrelevant (g : Guards) (i : Input) (b : Bool) : runWith g { i with revNilServer := b } = runWith g i := by
+  unfold runWith
+  cases hf : i.fuzz <;> simp [hf]
+  cases he : i.entry <;> simp [he, blobStmt, hostile, withinCap, vVerify, vVerifyBlob, vVerifyBlobGenError, skipVerify, nVerify, nVerifyBlob, userMetadata, revStep, revFails, signingKeys]
 
 /-- whatever the validator's count, through whichever of the two interfaces: no entry point panics -/
 theorem no_panic_any_result_count (i : Input) (n : Int) (b : Bool) :
     (run { i with rev := true, revSurplus := n, revClient := b }).panicked = false := no_panic _
+
+/-- ... nil entries and nil server results included -/
+theorem no_panic_any_result_shape (i : Input) (n : Int) (b nl ns : Bool) :
+    (run { i with rev := true, revSurplus := n, revClient := b, revNil := nl, revNilServer := ns }).panicked = false := no_panic _
 
 /-- the count matters only where revocation is enforced and a validator is asked -/
 theorem rev_surplus_irrelevant_unless_checked (g : Guards) (i : Input) (n : Int) (h : i.rev = false) :
@@ -308,6 +326,13 @@ example : run { entry := .nVerify, oci := .enforce, blob := .enforce, manager :=
     failNoOutcome := by decide
 example : Holds { entry := .vVerify, oci := .enforce, blob := .enforce, manager := true, sig := .valid, rev := true, revSurplus := 1, fuzz := false, label := "", data := "" }
     { panicked := true, err := false, outcome := none, consistent := false } = false := by decide
+/-- nil entries (right count): an error with an outcome, a panic is refuted; nil server results: accepted -/
+example : run { entry := .vVerify, oci := .enforce, blob := .enforce, manager := true, sig := .valid, rev := true, revNil := true, fuzz := false, label := "", data := "" } =
+    failWith true := by decide
+example : Holds { entry := .vVerifyBlob, oci := .enforce, blob := .enforce, manager := true, sig := .valid, rev := true, revNil := true, revClient := true, fuzz := false, label := "", data := "" }
+    { panicked := true, err := false, outcome := none, consistent := false } = false := by decide
+example : run { entry := .vVerify, oci := .enforce, blob := .enforce, manager := true, sig := .valid, rev := true, revNilServer := true, fuzz := false, label := "", data := "" } =
+    okWith true := by decide
 /-- Remove("a", "a") on [a, b]: an error; on [a, a]: none; a panic is refuted by `Holds` -/
 example : (run { entry := .signingKeys, oci := .enforce, blob := .enforce, manager := true, sig := .valid, keys := ["a", "b"], names := ["a", "a"], fuzz := false, label := "", data := "" }).err = true := by decide
 example : (run { entry := .signingKeys, oci := .enforce, blob := .enforce, manager := true, sig := .valid, keys := ["a", "a"], names := ["a", "a"], fuzz := false, label := "", data := "" }).err = false := by decide
